@@ -56,6 +56,7 @@ func init() {
 		a := c.core()
 		if a.ok {
 			c.rulesC04(a, c.lockAnalysis())
+			c.rulesC04dup()
 		}
 	})
 	register("C05", propInfo{
@@ -198,6 +199,8 @@ func init() {
 	}, func(c *Ctx) {
 		c.rulesC18()
 		c.rulesC18dflt()
+		c.rulesC18flat()
+		c.rulesC04dup()
 		c.rulesC18net()
 	})
 }
@@ -209,6 +212,15 @@ func init() {
 		Trusted:     commonTrusted,
 	}, func(c *Ctx) {
 		c.rulesC19()
+		// necessary conditions of the reachability clause that are visible in the shape of the
+		// resolver (the transition function the clause quantifies over): Require closure applied
+		// last and from every state's missing requirements, Add-implied states passed through a
+		// Remove filter, closures iterated to a fixed point, filter passes pure
+		if a := c.core(); a.ok {
+			c.rulesC02(a)
+			c.rulesC02x(a)
+			c.rulesC02grow()
+		}
 	})
 }
 
